@@ -638,3 +638,13 @@ V("c07b-preserving-doc-tfrac", "C07", "silent",
   (GATES, "        S_{(c)} = \\frac{1}{2} \\begin{bmatrix}\n        e^{i \\phi_{ext} }", "        S_{(c)} = \\tfrac{1}{2} \\, \\begin{bmatrix}\n        e^{i \\phi_{ext} }"))
 V("c09b-at-update-result-discarded", "C09", {"rule": "C09b", "contains": "at-update-result-discarded"},
   (JHERM, "    density_matrix = density_matrix.at[0, 0].set(c)\n", "    density_matrix.at[0, 0].set(c)\n"))
+
+# --- after round 2 (first returns)
+V("c14c-post-measurement-state-default-config", "C14", {"rule": "C14c", "contains": "config"},
+  (GSS, "        d=len(evolved_r_A) // 2, connector=state._connector, config=state._config\n", "        d=len(evolved_r_A) // 2, connector=state._connector\n"))
+V("c14c-preserving-config-copy", "C14", "silent",
+  (GSS, "        d=len(evolved_r_A) // 2, connector=state._connector, config=state._config\n", "        d=len(evolved_r_A) // 2, connector=state._connector, config=state._config.copy()\n"))
+V("c20e-slice-bound-truthiness", "C20", {"rule": "C20e", "contains": "truth-value"},
+  (EXPR, "                stop = self._eval(sl.upper, x) if sl.upper else None\n", "                stop = (self._eval(sl.upper, x) or None) if sl.upper else None\n"))
+V("c20e-preserving-is-not-none-test", "C20", "silent",
+  (EXPR, "                stop = self._eval(sl.upper, x) if sl.upper else None\n", "                stop = self._eval(sl.upper, x) if sl.upper is not None else None\n"))
